@@ -19,9 +19,10 @@ pub mod c16;
 pub mod c17;
 pub mod c18;
 pub mod c19;
+pub mod c20;
 
 pub fn ids() -> Vec<&'static str> {
-    vec!["C01", "C02", "C03", "C04", "C07", "C08", "C09", "C10", "C11", "C12", "C13", "C14", "C15", "C16", "C17", "C18", "C19"]
+    vec!["C01", "C02", "C03", "C04", "C07", "C08", "C09", "C10", "C11", "C12", "C13", "C14", "C15", "C16", "C17", "C18", "C19", "C20"]
 }
 
 pub fn get(id: &str, ctx: &Ctx) -> Option<PropertyDef> {
@@ -43,6 +44,7 @@ pub fn get(id: &str, ctx: &Ctx) -> Option<PropertyDef> {
         "C17" => c17::def(ctx),
         "C18" => c18::def(ctx),
         "C19" => c19::def(ctx),
+        "C20" => c20::def(ctx),
         _ => return None,
     })
 }
